@@ -201,6 +201,9 @@ def _translate_metadata_to_ds9(region, shape):
     if 'text' in meta:
         meta['text'] = f'{{{meta["text"]}}}'
 
+    if 'include' in meta:
+        meta['include'] = int(bool(meta['include']))
+
     edgecolor = meta.pop('edgecolor', None)
     facecolor = meta.pop('facecolor', None)
     color = None
